@@ -24,10 +24,12 @@ ASSUMPTIONS = [
 
 
 def gen_case(r):
-    d = G.hostile_doc(r, 4)
+    deep = r.pct() < 7
+    d = G.deep_chain(r) if deep else G.hostile_doc(r, 4)
     roots = []
     for _ in range(r.between(2, 3)):
-        roots.append(G.guided_path(r, d, max_len=2 if r.pct() >= 6 else 6, miss=10, mode="typed", prim_only=r.coin(65)))
+        # (long roots: re-rooted rules of 8 and more parts next to short ones)
+        roots.append(G.guided_path(r, d, max_len=(r.choice([7, 8, 9]) if deep and r.coin(70) else 2 if r.pct() >= 6 else 6), miss=10, mode="typed", prim_only=r.coin(65)))
     Ts = []
     for _ in range(r.between(1, 2)):
         root = r.choice(roots)
